@@ -586,6 +586,16 @@ def search(hints, tier, rng):
                 add(chk_reject("Uniform", (lo, hi), dt)); add(chk_reject("Uniform[arr]", (lo, hi), dt))
         for p in ([0, 0], [1, 1], [0, 2], [0, 1, 1], [0, 1, 3], [2, 0, -1], [1, 2, 3], [[0, 1], [1, 2]], [[0, 1], [2, 4]]):
             add(chk_reject("Permute", p, dt))
+        # every non-permutation sequence over {-1..n} of length <= 4, crafted multisets with a permutation's min/max/sum/product-of-(1+i),
+        # and 2-d arrangements: a validity test that is necessary but not sufficient accepts some of them
+        import itertools
+        for n in (1, 2, 3, 4):
+            for p in itertools.product(range(-1, n + 1), repeat=n):
+                if sorted(p) != list(range(n)):
+                    add(chk_reject("Permute", list(p), dt))
+        for p in ([0, 0, 3, 3], [0, 2, 2, 2, 4], [0, 1, 1, 3, 4, 5, 7, 7, 8], [0, 0, 2, 4, 4], [0, 1, 4, 4, 1, 5], [[0, 0], [3, 3]], [[0, 3], [3, 0]],
+                  [0, 3, 3, 0], [1, 1, 1, 3, 4, 0, 5, 6, 6, 8, 9]):
+            add(chk_reject("Permute", p, dt))
         n_it = 60 if q else 600
         for it in range(n_it):
             d = rng.choice([1, 2, 3, 5])
